@@ -16,8 +16,9 @@ from vlib import core, corr
 
 DEPENDS = ["RecBase", "Reno", "Cubic", "Pacer", "Recovery", "RecoveryFloat", "C08Consts", "RecoveryProofs",
            "RenoProofs", "CubicProofs", "RangeSet", "Base", "Tok", "C08",
-           "Builder", "C13Consts", "BuilderProofs", "BuilderFlight", "BuilderFlightAE", "FlightBudget", "FloatMono", "CubicFloor"]
-GENERATORS = ["c08_consts", "c13_consts"]
+           "Builder", "C13Consts", "BuilderProofs", "BuilderFlight", "BuilderFlightAE", "FlightBudget", "FloatMono", "CubicFloor",
+           "C08Probe", "ProbeBudget", "ProbeBudgetProofs", "ProbeFlight"]
+GENERATORS = ["c08_consts", "c13_consts", "c08_probe"]
 TRUSTED_BASE = [
     "vm_compute evaluation of the PrimFloat instance (coqc, no extraction); Coq's primitive floats = IEEE binary64 "
     "round-to-nearest-even, the same arithmetic CPython uses",
@@ -30,11 +31,15 @@ TRUSTED_BASE = [
     "tools/gen/c08_consts.py, tools/gen/c13_consts.py (read constants from the source into coq/gen/C08Consts.v, C13Consts.v)",
     "extraction of exec_builder (OCaml) for the builder model tie; the builder correspondence reuses C13's encoder and "
     "implementation driver (harness/props/c13.py: b_encode, b_impl, _b_apply, _mk_builder, _crypto)",
-    "datagrams_to_send itself (budget = congestion_window - bytes_in_flight, one datagram when a probe is pending, the frame "
-    "writers' discipline, on_packet_sent for every packet) is NOT modelled: flight_budget composes the builder model with "
-    "on_packet_sent under the stated discipline; the connection level is explored by the system-level oracle (sim_run: two "
-    "real QuicConnections over a simulated lossy network; reads the private attributes _loss, _probe_pending, "
-    "_max_datagram_size)",
+    "datagrams_to_send: the budget computation and the life of _probe_pending (set by the timeout, read by the budget, cleared by "
+    "the frame writers) are modelled by coq/model/ProbeBudget.v as an interpreter of coq/gen/C08Probe.v, which "
+    "tools/gen/c08_probe.py writes from the AST of connection.py / recovery.py (trusted: the generator's recognition of the "
+    "statement shapes; it fails closed on anything it does not recognise); what is pending, what the packet builder and the "
+    "pacer answer are arbitrary decision inputs of that model, not tied to the builder model; on_packet_sent for every packet "
+    "and the frame writers' discipline as before (flight_budget composes the builder model with on_packet_sent under the stated "
+    "discipline).  The connection level is explored by the system-level oracles (sim_run, probe_run: two real QuicConnections "
+    "over a simulated network; read the private attributes _loss, _max_datagram_size and wrap _loss._send_probe / "
+    "_loss.on_loss_detection_timeout to count the probe timeouts; _probe_pending is not consulted)",
     "cwnd_floor_cubic only: Flocq 4 (IEEE754.BinarySingleNaN, IEEE754.PrimFloat, Prop.Relative) and the standard library's "
     "specification of primitive floats and 63-bit integers, i.e. these named assumptions (Print Assumptions cwnd_floor_cubic): "
     "FloatAxioms.Prim2SF_valid, FloatAxioms.SF2Prim_Prim2SF, FloatAxioms.Prim2SF_SF2Prim, FloatAxioms.add_spec, "
@@ -61,6 +66,10 @@ ASSUMPTIONS = [
     "remaining_buffer_space, ACK / CONNECTION_CLOSE frames before any in-flight frame of a packet, bytes pushed into a packet "
     "that is in flight fit remaining_flight_space, an ACK/CLOSE-only packet has at least 2 payload bytes; checked "
     "dynamically on the implementation (fl_oracle recomputes the discipline), not proved of connection.py",
+    "one_probe_per_timeout: counts the datagrams_to_send calls whose budget was raised by the probe rule and that wrote an "
+    "ack-eliciting frame; calls cut by QuicPacketBuilderStop at or ahead of the probe PING of a 1-RTT packet after an "
+    "ack-eliciting frame was written are excluded (for them the statement is refuted: one_probe_per_timeout_refuted, finding "
+    "C08-F3); grants = probe timeouts fired + at most one early retransmission (the one-shot reschedule_data() of the receive path)",
     "flight_budget*: every packet type maps to an existing packet space (sp t < number of spaces); the budget is computed from "
     "congestion_window and bytes_in_flight as they are BEFORE the call (CUBIC may reset the window inside on_packet_sent)",
 ]
@@ -711,14 +720,103 @@ class _Recording:
 
 
 # ------------------------------------------------------------------------------------ system-level oracle
-def sim_run(seed, cc, loss, nbytes, max_steps=1500):
+class _ProbeWatch:
+    """Independent account of the probe allowance of one endpoint ("one probe datagram per timeout").
+
+    A GRANT is a loss-detection timeout that fired and took the probe-timeout branch, observed by wrapping
+    QuicPacketRecovery.on_loss_detection_timeout and the send_probe callback the recovery object was constructed with
+    (kind "timeout"), or one of the two one-shot early retransmissions of receive_datagram that call
+    reschedule_data() directly (kind "early"; at most one per connection).  QuicConnection._probe_pending is never read.
+
+    call(now) = one datagrams_to_send(now): the ack-eliciting in-flight bytes it registers with the recovery object
+    (packets that are in flight but not ack-eliciting = acknowledgement-only, exempt) are compared with the room
+    max(congestion_window - bytes_in_flight, 0) read BEFORE the call.  A call that exceeds the room is an over-window call:
+    it must be paid for by one unconsumed grant (credit), and it may carry at most one datagram (max_datagram_size bytes).
+    Credits accumulate (two timeouts without a send in between allow two probe datagrams: the property's literal reading;
+    the code is stricter)."""
+
+    def __init__(self, conn, name, log):
+        self.conn, self.name, self.log = conn, name, log
+        self.grants = {"timeout": 0, "early": 0}
+        self.credit = 0
+        self.over_calls = 0
+        self.over_bytes = 0
+        self.probe_calls = 0
+        self.calls = 0
+        self.history = []          # compact event list for the replay text: ("T"|"E",) / ("D", room, bytes, datagrams)
+        self._in_timeout = False
+        rec = conn._loss
+        orig_probe = rec._send_probe
+        orig_timeout = rec.on_loss_detection_timeout
+
+        def send_probe():
+            kind = "timeout" if self._in_timeout else "early"
+            self.grants[kind] += 1
+            self.credit += 1
+            self.history.append(("T" if self._in_timeout else "E",))
+            return orig_probe()
+
+        def on_loss_detection_timeout(*, now):
+            self._in_timeout = True
+            try:
+                return orig_timeout(now=now)
+            finally:
+                self._in_timeout = False
+        rec._send_probe = send_probe
+        rec.on_loss_detection_timeout = on_loss_detection_timeout
+
+    def snapshot(self):
+        return {(i, pn) for i, sp in enumerate(self.conn._loss.spaces) for pn in sp.sent_packets}
+
+    def call(self, now, where=""):
+        conn, rec = self.conn, self.conn._loss
+        before = self.snapshot()
+        cw, bif = rec.congestion_window, rec.bytes_in_flight
+        credit = self.credit
+        dgs = conn.datagrams_to_send(now)
+        self.calls += 1
+        new = [(i, pn, rec.spaces[i].sent_packets[pn]) for (i, pn) in sorted(self.snapshot() - before)]
+        budgeted = sum(p.sent_bytes for _, _, p in new if p.in_flight and p.is_ack_eliciting)
+        room = max(cw - bif, 0)
+        mds = conn._max_datagram_size
+        if new:
+            self.probe_calls += int(credit > 0)
+            self.history.append(("D", room, budgeted, len(dgs)))
+        if budgeted > room:
+            self.over_calls += 1
+            self.over_bytes += budgeted - room
+            grants = self.grants["timeout"] + self.grants["early"]
+            if credit <= 0:
+                self.log.append(("probe_allowance",
+                                 "%s %s: datagrams_to_send put %d ack-eliciting in-flight bytes (%d datagram(s)) on the wire with "
+                                 "congestion_window %d, bytes_in_flight %d (room %d) and no unconsumed probe timeout: over-window call "
+                                 "number %d after %d fired probe timeout(s) (%d timeout, %d early retransmission); history %s"
+                                 % (self.name, where, budgeted, len(dgs), cw, bif, room, self.over_calls, grants,
+                                    self.grants["timeout"], self.grants["early"], self.tail())))
+            else:
+                self.credit -= 1
+                if budgeted > max(room, mds):
+                    self.log.append(("flight_budget",
+                                     "%s %s: %d ack-eliciting in-flight bytes sent by one call, window %d, in flight %d, one probe of %d "
+                                     "allowed" % (self.name, where, budgeted, cw, bif, mds)))
+        return dgs, new
+
+    def tail(self, n=12):
+        return " ".join("%s" % (e[0] if len(e) == 1 else "D(room=%d,sent=%d,dg=%d)" % e[1:]) for e in self.history[-n:])
+
+
+def sim_run(seed, cc, loss, nbytes, max_steps=1500, extra=False):
     """Two real QuicConnections joined by a lossy in-memory network with virtual time.  After every
     public call (datagrams_to_send / receive_datagram / handle_timer) the ledger is recomputed from
     _loss.spaces[*].sent_packets; the hypotheses of the theorems are checked on real traffic (fresh packet
     numbers per space, sent_bytes > 0, ack-eliciting => in flight); and the flight budget of C08's last
     sentence is checked empirically: the ack-eliciting in-flight bytes registered by one
-    datagrams_to_send() call are at most max(cwnd - bytes_in_flight, one datagram if a probe is pending).
-    (Reads the private attributes _loss, _probe_pending, _max_datagram_size of QuicConnection.)"""
+    datagrams_to_send() call are at most max(cwnd - bytes_in_flight, 0), except for ONE call of at most one datagram per
+    probe grant that fired before it (_ProbeWatch: loss-detection timeouts whose PTO branch ran, counted by wrapping
+    _loss.on_loss_detection_timeout / _loss._send_probe; the flag _probe_pending itself is NOT consulted).
+    extra=True: the application also sends pings at random and the driver calls datagrams_to_send() a second time without
+    any event in between (stale state from the first call must not grant anything).
+    (Reads the private attributes _loss, _max_datagram_size of QuicConnection.)"""
     import os
     import random
     import ssl
@@ -736,7 +834,9 @@ def sim_run(seed, cc, loss, nbytes, max_steps=1500):
     now = 0.0
     ends["c"].connect(("1.2.3.4", 1234), now)
     log = []
-    stats = {"public_calls": 0, "sending_calls": 0, "probe_calls": 0, "packets": 0, "exempt_packets": 0}
+    stats = {"public_calls": 0, "sending_calls": 0, "probe_calls": 0, "packets": 0, "exempt_packets": 0,
+             "probe_grants_timeout": 0, "probe_grants_early": 0, "over_window_calls": 0, "extra_calls": 0, "app_pings": 0}
+    watch = {"c": _ProbeWatch(ends["c"], "c", log), "s": None}
     seen = {"c": set(), "s": set()}
     wire = []
     sent_stream = done = False
@@ -769,37 +869,30 @@ def sim_run(seed, cc, loss, nbytes, max_steps=1500):
             conn = ends[name]
             if conn is None:
                 continue
-            rec = conn._loss
-            before = snapshot(conn)
-            cw, bif, probe = rec.congestion_window, rec.bytes_in_flight, conn._probe_pending
-            dgs = conn.datagrams_to_send(now)
-            new = snapshot(conn) - before
-            budgeted = 0
-            for (i, pn) in sorted(new):
-                p = rec.spaces[i].sent_packets[pn]
-                stats["packets"] += 1
-                if (i, pn) in seen[name]:
-                    log.append(("hyp_fresh", "%s: packet number %d reused in space %d" % (name, pn, i)))
-                seen[name].add((i, pn))
-                if p.sent_bytes <= 0:
-                    log.append(("hyp_bytes", "%s: sent_bytes=%d" % (name, p.sent_bytes)))
-                if p.is_ack_eliciting and not p.in_flight:
-                    log.append(("hyp_flags", "%s: ack-eliciting packet %d not in flight" % (name, pn)))
-                if p.in_flight and p.is_ack_eliciting:
-                    budgeted += p.sent_bytes
-                elif p.in_flight:
-                    stats["exempt_packets"] += 1
-            if new:
-                stats["sending_calls"] += 1
-                stats["probe_calls"] += int(bool(probe))
-                allow = max(cw - bif, conn._max_datagram_size if probe else 0, 0)
-                if budgeted > allow:
-                    log.append(("flight_budget", "%s step %d: %d ack-eliciting in-flight bytes sent, window %d, in flight %d, probe %s"
-                                % (name, step, budgeted, cw, bif, probe)))
-            ledger(name, "datagrams_to_send")
-            for data, _addr in dgs:
-                if rng.random() >= loss:
-                    wire.append((now + rng.choice([0.01, 0.02, 0.05]), "s" if name == "c" else "c", data))
+            if extra and sent_stream and rng.random() < 0.05:
+                conn.send_ping(step)
+                stats["app_pings"] += 1
+            ncalls = 2 if extra and rng.random() < 0.3 else 1
+            stats["extra_calls"] += ncalls - 1
+            for _rep in range(ncalls):
+                dgs, new = watch[name].call(now, "step %d" % step)
+                for (i, pn, p) in new:
+                    stats["packets"] += 1
+                    if (i, pn) in seen[name]:
+                        log.append(("hyp_fresh", "%s: packet number %d reused in space %d" % (name, pn, i)))
+                    seen[name].add((i, pn))
+                    if p.sent_bytes <= 0:
+                        log.append(("hyp_bytes", "%s: sent_bytes=%d" % (name, p.sent_bytes)))
+                    if p.is_ack_eliciting and not p.in_flight:
+                        log.append(("hyp_flags", "%s: ack-eliciting packet %d not in flight" % (name, pn)))
+                    if p.in_flight and not p.is_ack_eliciting:
+                        stats["exempt_packets"] += 1
+                if new:
+                    stats["sending_calls"] += 1
+                ledger(name, "datagrams_to_send")
+                for data, _addr in dgs:
+                    if rng.random() >= loss:
+                        wire.append((now + rng.choice([0.01, 0.02, 0.05]), "s" if name == "c" else "c", data))
         wire.sort(key=lambda x: x[0])
         timers = [t for t in (c.get_timer() for c in ends.values() if c is not None) if t is not None]
         if not wire and not timers:
@@ -810,6 +903,7 @@ def sim_run(seed, cc, loss, nbytes, max_steps=1500):
             if ends[dst] is None:
                 hdr = pull_quic_header(Buffer(data=data), host_cid_length=8)
                 ends[dst] = QuicConnection(configuration=sconf, original_destination_connection_id=hdr.destination_cid)
+                watch[dst] = _ProbeWatch(ends[dst], dst, log)
             ends[dst].receive_datagram(data, ("1.2.3.4", 1234) if dst == "s" else ("5.6.7.8", 4433), now)
             ledger(dst, "receive_datagram")
         for name, c in ends.items():
@@ -839,21 +933,28 @@ def sim_run(seed, cc, loss, nbytes, max_steps=1500):
         if done or len(log) > 5:
             break
     stats["completed"] = int(done)
+    for w in watch.values():
+        if w is not None:
+            stats["probe_calls"] += w.probe_calls
+            stats["probe_grants_timeout"] += w.grants["timeout"]
+            stats["probe_grants_early"] += w.grants["early"]
+            stats["over_window_calls"] += w.over_calls
     return log, stats
 
 
 def system_runs(ctx, n):
     import os
-    tot = {"runs": 0, "public_calls": 0, "sending_calls": 0, "probe_calls": 0, "packets": 0, "exempt_packets": 0, "completed": 0}
+    tot = {"runs": 0, "public_calls": 0, "sending_calls": 0, "probe_calls": 0, "packets": 0, "exempt_packets": 0, "completed": 0,
+           "probe_grants_timeout": 0, "probe_grants_early": 0, "over_window_calls": 0, "extra_calls": 0, "app_pings": 0}
     if not os.path.exists(os.path.join(core.REPO, "tests", "ssl_cert.pem")):
         tot["skipped"] = "tests/ssl_cert.pem not found in the tree"
         return tot
     for k in range(n):
         params = {"seed": ctx.seed + k, "cc": ("reno", "cubic")[k % 2], "loss": (0.0, 0.05, 0.2, 0.4)[(k // 2) % 4],
-                  "nbytes": (60000, 200000)[(k // 8) % 2]}
+                  "nbytes": (60000, 200000)[(k // 8) % 2], "extra": bool((k // 4) % 2)}
         try:
             with _Recording():
-                log, st = sim_run(params["seed"], params["cc"], params["loss"], params["nbytes"])
+                log, st = sim_run(params["seed"], params["cc"], params["loss"], params["nbytes"], extra=params["extra"])
         except Exception as e:
             log, st = [("raise", "simulated connection pair raised %r" % (e,))], {}
         tot["runs"] += 1
@@ -861,6 +962,255 @@ def system_runs(ctx, n):
             tot[key] = tot.get(key, 0) + v
         for rule, what in log[:1]:
             ctx.violation("impl-violation", "system run: " + what, {"sim": params}, signature={"rule": rule, "level": "system"})
+    return tot
+
+
+# ------------------------------------------------------------------------------------ probe allowance scenarios
+PROBE_KINDS = ("none", "ping", "retire_cid", "peer_data", "streams_blocked", "reset", "limits_flood", "mix")
+
+
+def probe_run(p):
+    """Window full + probe timeout + pending control frames + queued stream data + repeated datagrams_to_send calls.
+
+    p = {"role": "c"|"s" (endpoint under test E; the other one is the peer P), "cc", "mds", "kinds": one control-frame kind per
+    timeout round, "extra": datagrams_to_send calls after the first one of a round (no timeout in between), "acks": deliver
+    P's acknowledgements of E's probe datagrams at the end of every round, "seed"}.  Public API only, except the private reads of
+    _ProbeWatch.  Kinds (what is pending at E when the timeout fires; all written AHEAD of the probe PING in the 1-RTT packet
+    unless noted): none; ping = send_ping() (application PING); retire_cid = change_connection_id() (RETIRE_CONNECTION_ID);
+    peer_data = P's stream data has reached E (MAX_STREAM_DATA / MAX_DATA); streams_blocked = E opens more streams than P allows
+    (STREAMS_BLOCKED); reset = reset_stream() on a second stream (RESET_STREAM, written after the PING); limits_flood = P's data on
+    some 300 streams has reached E (more MAX_STREAM_DATA frames than fit one datagram); mix = ping + retire_cid + peer_data.
+    Returns (log, stats)."""
+    import os
+    import random
+    import ssl
+    from aioquic.quic.configuration import QuicConfiguration
+    from aioquic.quic.connection import QuicConnection
+    rng = random.Random("c08-probe/%r" % (sorted(p.items()),))
+    tests = os.path.join(core.REPO, "tests")
+    role, cc, mds = p["role"], p["cc"], p.get("mds", 1200)
+    flood = "limits_flood" in p["kinds"]
+    # E's own receive limits are small (so that P's data makes E owe MAX_STREAM_DATA frames); P's are the defaults
+    small = {"max_stream_data": 100 if flood else 4000}
+    cconf = QuicConfiguration(is_client=True, alpn_protocols=["x"], congestion_control_algorithm=cc, max_datagram_size=mds,
+                              **(small if role == "c" else {}))
+    cconf.verify_mode = ssl.CERT_NONE
+    sconf = QuicConfiguration(is_client=False, alpn_protocols=["x"], congestion_control_algorithm=cc, max_datagram_size=mds,
+                              **(small if role == "s" else {}))
+    sconf.load_cert_chain(os.path.join(tests, "ssl_cert.pem"), os.path.join(tests, "ssl_key.pem"))
+    client = QuicConnection(configuration=cconf)
+    server = QuicConnection(configuration=sconf, original_destination_connection_id=client.original_destination_connection_id)
+    addr = {"c": ("1.2.3.4", 1234), "s": ("5.6.7.8", 4433)}
+    ends = {"c": client, "s": server}
+    log = []
+    watch = {n: _ProbeWatch(ends[n], n, log) for n in ends}
+    other = {"c": "s", "s": "c"}
+    stats = {"rounds": 0, "timeouts": 0, "calls": 0, "over_window_calls": 0, "window_full": 0,
+             "kinds": {}, "setup": "ok"}
+    now = 100.0
+
+    def xfer(src, deliver=True):
+        dgs, new = watch[src].call(now)
+        if deliver:
+            for d, _a in dgs:
+                ends[other[src]].receive_datagram(d, addr[src], now)
+        return dgs, new
+
+    def drain():
+        for c in ends.values():
+            while c.next_event() is not None:
+                pass
+
+    def due(c):
+        t = c.get_timer()
+        return t is not None and t <= now
+
+    client.connect(addr["s"], now=now)
+    for _ in range(12):
+        now += 0.01
+        a, _n = xfer("c")
+        now += 0.01
+        b, _n = xfer("s")
+        for c in ends.values():
+            if due(c):
+                c.handle_timer(now + 1e-6)
+        if not a and not b and client._handshake_confirmed:
+            break
+    drain()
+    E, P = ends[role], ends[other[role]]
+    we, wp = watch[role], watch[other[role]]
+    if not (client._handshake_confirmed and E._loss.bytes_in_flight == 0):
+        for _ in range(6):
+            now += 0.05
+            for c in ends.values():
+                if due(c):
+                    c.handle_timer(now + 1e-6)
+            xfer("c")
+            xfer("s")
+    if not client._handshake_confirmed:
+        stats["setup"] = "handshake not confirmed"
+        return log, stats
+
+    clock = [now]      # peer_data advances the time on its own
+
+    def peer_data(nstreams, nbytes, uni=False):
+        """P -> E: stream data that makes E owe MAX_STREAM_DATA / MAX_DATA; E's replies reach P only when they put nothing
+        in flight (acknowledgements)"""
+        for k in range(nstreams):
+            P.send_stream_data(P.get_next_available_stream_id(is_unidirectional=bool(uni and k % 2)), bytes(nbytes))
+        for _ in range(80):
+            clock[0] += 0.002
+            dgs, _n = wp.call(clock[0])
+            for d, _a in dgs:
+                E.receive_datagram(d, addr[other[role]], clock[0])
+            back, new = we.call(clock[0])
+            if not any(q.in_flight for _, _, q in new):
+                for d, _a in back:
+                    P.receive_datagram(d, addr[role], clock[0])
+            if not dgs and not back:
+                break
+        drain()
+
+    # E fills its congestion window; nothing it sends from now on arrives (except acknowledgement-only datagrams above)
+    sid = E.get_next_available_stream_id()
+    E.send_stream_data(sid, bytes(400000))
+    sid2 = None
+    for _ in range(400):
+        dgs, _n = we.call(now)
+        rec = E._loss
+        if rec.congestion_window - rec.bytes_in_flight < mds and not dgs:
+            break
+        t = E.get_timer()
+        now = max(now + 0.0005, min(t, now + 0.002) if t is not None else now)
+    rec = E._loss
+    if rec.congestion_window - rec.bytes_in_flight >= mds:
+        stats["setup"] = "window not full"
+        return log, stats
+    stats["window_full"] = 1
+    clock[0] = now
+
+    def queue(kind):
+        nonlocal sid2
+        if kind in ("ping", "mix"):
+            E.send_ping(rng.randrange(1 << 20))
+        if kind in ("retire_cid", "mix"):
+            try:
+                E.change_connection_id()
+            except Exception:
+                pass
+        if kind in ("peer_data", "mix"):
+            peer_data(2, 3000)
+        if kind == "limits_flood":
+            peer_data(256, 60, uni=True)       # 128 bidirectional + 128 unidirectional: all that E's MAX_STREAMS allow
+        if kind == "streams_blocked":
+            for _ in range(140):
+                E.send_stream_data(E.get_next_available_stream_id(), b"y")
+        if kind == "reset":
+            if sid2 is None:
+                sid2 = E.get_next_available_stream_id()
+                E.send_stream_data(sid2, bytes(5000))
+            else:
+                E.reset_stream(sid2, 7)
+                sid2 = None
+
+    for kind in p["kinds"]:
+        stats["rounds"] += 1
+        stats["kinds"][kind] = stats["kinds"].get(kind, 0) + 1
+        queue(kind)
+        now = max(now, clock[0])
+        # fire E's timer until a probe timeout has fired (ack / pacing timers come first)
+        g0 = we.grants["timeout"]
+        for _ in range(20):
+            t = E.get_timer()
+            if t is None:
+                break
+            now = max(now, t) + 1e-6
+            E.handle_timer(now)
+            if we.grants["timeout"] > g0:
+                break
+            we.call(now)
+        if we.grants["timeout"] == g0:
+            stats["setup"] = "no probe timeout in round %d" % stats["rounds"]
+            break
+        stats["timeouts"] += we.grants["timeout"] - g0
+        probes = []
+        for k in range(1 + p.get("extra", 3)):
+            dgs, new = we.call(now, "round %d (%s) call %d" % (stats["rounds"], kind, k))
+            stats["calls"] += 1
+            probes += dgs
+            # the driver must not run into the next timeout: stay before E's loss timer (pacing timers are passed)
+            nxt = E._loss.get_loss_detection_time()
+            step = 0.0015
+            if nxt is not None and now + step >= nxt:
+                step = max((nxt - now) / 4, 0.0)
+            now += step
+        if p.get("acks") and probes:
+            d = probes[-1][0]
+            P.receive_datagram(d, addr[role], now)
+            now += 0.001
+            back, _n = wp.call(now)
+            for dd, _a in back[:1]:
+                E.receive_datagram(dd, addr[other[role]], now)
+            drain()
+        clock[0] = now
+        if log:
+            break
+    stats["over_window_calls"] = we.over_calls
+    stats["grants"] = dict(we.grants)
+    return log, stats
+
+
+def probe_params(ctx, n):
+    """the scenario families: every kind x both roles x both controllers first, then random rounds"""
+    rng = ctx.rng
+    out = []
+    for kind in PROBE_KINDS:
+        for role in ("c", "s"):
+            for cc in ("reno", "cubic"):
+                out.append({"role": role, "cc": cc, "mds": 1200, "kinds": [kind, kind if kind != "limits_flood" else "none"],
+                            "extra": 3, "acks": 0, "seed": ctx.seed})
+    base = len(out)
+    while len(out) < max(n, base):
+        out.append({"role": rng.choice("cs"), "cc": rng.choice(("reno", "cubic")), "mds": rng.choice((1200, 1200, 1350, 1452)),
+                    "kinds": [rng.choice(PROBE_KINDS[:6] + ("mix",)) for _ in range(rng.randint(1, 4))],
+                    "extra": rng.randint(1, 4), "acks": rng.randint(0, 1), "seed": ctx.seed + len(out)})
+    return out
+
+
+def probe_runs(ctx, n):
+    import os
+    tot = {"runs": 0, "rounds": 0, "timeouts": 0, "calls": 0, "over_window_calls": 0, "window_full": 0,
+           "kinds": {}, "setup_failures": {}, "limits_flood_violations": 0}
+    if not os.path.exists(os.path.join(core.REPO, "tests", "ssl_cert.pem")):
+        tot["skipped"] = "tests/ssl_cert.pem not found in the tree"
+        return tot
+    reported = set()
+    for params in probe_params(ctx, n):
+        try:
+            log, st = probe_run(params)
+        except Exception as e:
+            import traceback
+            log, st = [("raise", "probe scenario raised %r at %s" % (e, traceback.format_exc().strip().splitlines()[-3:]))], {}
+        tot["runs"] += 1
+        for key in ("rounds", "timeouts", "calls", "over_window_calls", "window_full"):
+            tot[key] += st.get(key, 0)
+        for k, v in st.get("kinds", {}).items():
+            tot["kinds"][k] = tot["kinds"].get(k, 0) + v
+        if st.get("setup", "ok") != "ok":
+            tot["setup_failures"][st["setup"]] = tot["setup_failures"].get(st["setup"], 0) + 1
+        for rule, what in log[:1]:
+            # finding C08-F3: exactly one datagram more than the fired timeouts, in the scenario built for it
+            flood = ("limits_flood" in params["kinds"] and rule == "probe_allowance"
+                     and st.get("over_window_calls") == sum(st.get("grants", {}).values()) + 1)
+            tot["limits_flood_violations"] += int(flood)
+            sig = {"rule": rule, "level": "connection", "scenario": "probe"}
+            if flood:
+                sig["cause"] = "stop_before_probe_ping"
+            key = (rule, flood)
+            if key in reported:
+                continue
+            reported.add(key)
+            ctx.violation("impl-violation", "probe scenario: " + what, {"probe": params}, signature=sig)
     return tot
 
 
@@ -937,6 +1287,16 @@ LOCAL_KNOWN_FINDINGS = [{
             "(max_datagram_size 1452, window full of 0-RTT data: 1357 in-flight bytes sent with cwnd - bytes_in_flight = 1272; "
             "afterwards bytes_in_flight 15241 > congestion_window 15156)",
     "match": {"rule": "flight_budget", "level": "connection", "closing": True},
+}, {
+    "id": "C08-F3-stop-before-probe-ping-keeps-allowance",
+    "property": "C08",
+    "status": "open",
+    "what": "_probe_pending is cleared only where the probe PING is written; when the control frames written ahead of it in the "
+            "1-RTT packet (MAX_STREAM_DATA for 256 peer streams) fill the probe datagram, QuicPacketBuilderStop leaves "
+            "_write_application with the flag still set and the next datagrams_to_send() call (no timeout in between) raises the "
+            "flight budget to a full datagram again: two over-window datagrams (1186 + 1200 bytes) for one probe timeout "
+            "(Coq: one_probe_per_timeout_refuted; docs/C08.md finding F3, docs/C08-fix-3.patch)",
+    "match": {"rule": "probe_allowance", "level": "connection", "scenario": "probe", "cause": "stop_before_probe_ping"},
 }]
 
 
@@ -1372,10 +1732,12 @@ def run(ctx):
             break
         s.run(allc[i:i + chunk])
     _tally(s, rnd[:300] + lng[:60])
+    for kf in LOCAL_KNOWN_FINDINGS:
+        if not any(k.get("id") == kf["id"] for k in ctx.known):
+            ctx.known = list(ctx.known) + [kf]
     system = system_runs(ctx, ctx.n(24, 200))
+    probing = probe_runs(ctx, ctx.n(64, 600))
     builder = builder_runs(ctx, ctx.n(4000, 60000))
-    if not any(k.get("id") == LOCAL_KNOWN_FINDINGS[0]["id"] for k in ctx.known):
-        ctx.known = list(ctx.known) + LOCAL_KNOWN_FINDINGS
     closing = close_rounds(ctx)
     # builder MODEL <-> QuicPacketBuilder on flight-shaped histories + the statement of flight_le_budget as oracle
     fs = flight_suite(ctx)
@@ -1426,6 +1788,7 @@ def run(ctx):
         {"exhaustive_small_scope": skipped < len(rnd) + len(lng) or skipped == 0, "exhaustive_cases": len(ex),
          "cases_skipped_by_time_guard": skipped, "system_tie": system, "builder_flight_budget": builder,
          "builder_model_tie": fl_hist, "builder_sessions_of_real_connections": real, "close_round": closing,
+         "probe_allowance": probing,
          "generated": {"exhaustive": len(ex), "random": len(rnd), "long": len(lng)}})
 
 
@@ -1451,8 +1814,11 @@ def replay(ctx, rep):
         return {"close_round": dict(zip(("in_flight_added", "room", "bytes_in_flight", "cwnd"), close_round_run(p["cc"], p["mds"])))}
     if isinstance(case, dict) and "sim" in case:
         p = case["sim"]
-        log, st = sim_run(p["seed"], p["cc"], p["loss"], p["nbytes"])
+        log, st = sim_run(p["seed"], p["cc"], p["loss"], p["nbytes"], extra=p.get("extra", False))
         return {"system": {"violations": log[:10], "stats": st}}
+    if isinstance(case, dict) and "probe" in case:
+        log, st = probe_run(case["probe"])
+        return {"probe": {"violations": log[:10], "stats": st}}
     if not isinstance(case, dict):
         return {"error": "case was truncated when it was stored; not replayable"}
     d, e, g = s.disagree(case)
